@@ -90,6 +90,7 @@ CheckRecord(k) ==
          /\ Report("FAIL", k, ActionClauses(pre, c, r.out, post, FullPre(r), FullPost(r)))
          /\ (IF c.op \in {"hq", "hcheck"} THEN Report("FAIL", k, QueryClauses(pre, c, RetOf(r), InfoOf(r))) ELSE TRUE)
          /\ (IF c.op \in {"uniquify", "flatten"} THEN Report("FAIL", k, TransformClauses(pre, c, r.out, post)) ELSE TRUE)
+         /\ (IF c.op = "compare" THEN Report("FAIL", k, CompareClauses(pre, c, r)) ELSE TRUE)
          /\ (IF c.op = "q" THEN Report("FAIL", k, QueryFilterClauses(c, r)) ELSE TRUE)
          /\ (IF c.op = "clone" THEN Report("FAIL", k, CloneClauses(pre, c, r.out, post, RetOf(r), FullPost(r))) ELSE TRUE)
          /\ (IF HasMirror(r)
